@@ -69,7 +69,9 @@ def _check_roundtrip(sf) -> bool:
         LAST = ("reparse differs", list(back.items()), items)
         return False
     for a, b in zip(back.charts, sf.charts):
-        if a != b or (a.extradata or []) != (b.extradata or []) or list(a.items()) != list(b.items()):
+        # same six fields (an SM chart's serialized order is the documented one whatever the order of its mapping) and extras
+        if a != b or (a.extradata or []) != (b.extradata or []) or dict(a.items()) != dict(b.items()):
+            LAST = ("reparsed chart differs", dict(a.items()), dict(b.items()))
             return False
     # (2) serializing the result again reproduces the text (same stream, same layout)
     stream2, text2, gaps2, _ = record(back)
@@ -137,7 +139,7 @@ def chart_attr_edit(i: int, f: str) -> bool:
     return _check_roundtrip(sf)
 
 
-OPS = 13
+OPS = 15
 
 
 def edit_step(op: int, k: int, v: str, pre_has: bool, pre_chart: bool, pre_ser: bool) -> bool:
@@ -192,9 +194,17 @@ def edit_step(op: int, k: int, v: str, pre_has: bool, pre_chart: bool, pre_ser: 
     elif op == 11:
         if sf.charts:
             del sf.charts[0].extradata[:]
-    else:
+    elif op == 12:
         if sf.charts:
             sf.charts[0]["METER"] = v.strip()      # chart field by key
+    elif op == 13:
+        if sf.charts:
+            sf.charts[0].move_to_end("STEPSTYPE")  # the chart's mapping reordered (no key added or removed)
+            sf.charts[0].description = v.strip()
+    else:
+        ch = SMChart()                             # an empty chart whose six fields are assigned in another order than documented
+        ch.notes = "0000"; ch.radarvalues = "0,0"; ch.meter = "7"; ch.difficulty = "Hard"; ch.description = v.strip(); ch.stepstype = "dance-single"
+        sf.charts.append(ch)
     return _check_roundtrip(sf)
 
 
